@@ -146,7 +146,7 @@ CLAIMED = {
               "an exception, not a stack overflow; (3) the writer's escape table composed with the reader's is the identity "
               "on everything the writer escapes, the writer escapes both reader-special characters and emits all other bytes "
               "unchanged; (4) every switch over the value kind is exhaustive and the number probe cannot capture booleans. "
-              "Not decided: numeric round trip (six printed decimals), key order, values of parse_num."),
+              "The converter keeps no state between calls: no static or thread_local object besides compile-time constants (R18.5). Not decided: numeric round trip (six printed decimals), key order, values of parse_num."),
         technique="who-may-access rule with positive fixture, recursion-cycle depth-argument analysis on the call graph, table extraction and composition",
         ref="DESIGN.md section 4 C18"),
     "C19": dict(
@@ -275,7 +275,7 @@ CLAIMED = {
               "for, ranged-for, switch, case, default, try and class evaluate their children under their own scope guard and "
               "functions run in a new frame; assignment evaluates the right operand first, first assignment and `var x = e` "
               "store clone_if_necessary(e), `:=` rebinds without copying; lambda captures are evaluated at creation and owned "
-              "by the callable. clone_if_necessary clears the is-a-temporary mark on the path that does not copy, so the next declaration or assignment that receives the stored value does copy it; overload ordering (function_less_than) evaluated as a decision table on 12 scenarios: guarded before unguarded script functions, typed C++ before script functions, non-const before const, specific before catch-all. a script function's body is entered only under a passed arity/type match and a guard that returned true on the same arguments (guard_error otherwise); Param_Types::match interpreted on one parameter over 12 combinations of its tests accepts exactly untyped, script object of the named class, exact C++ type, convertible C++ type (marked for conversion). script classes: method and attribute wrappers call their body only for objects of their class (type-name match interpreted as a table), `def C::C` builds the constructor wrapper, which creates the object, passes it first followed by the arguments in order and returns it. The copy registered for a built-in container of values must clone element by element (a Boxed_Value copy shares the object): fails for Vector, Map, Map_Pair and Pair on the current tree - four listed known findings with a replay (`var b = a; b[0] = 9` changes a). No optimizer pass removes the evaluation of an operand the evaluator would evaluate (C02 R2.8/R2.9 re-decided as R3.12). Not decided: agreement with a reference interpreter on generated programs; values."),
+              "by the callable. clone_if_necessary clears the is-a-temporary mark on the path that does not copy, so the next declaration or assignment that receives the stored value does copy it; overload ordering (function_less_than) evaluated as a decision table on 12 scenarios: guarded before unguarded script functions, typed C++ before script functions, non-const before const, specific before catch-all. a script function's body is entered only under a passed arity/type match and a guard that returned true on the same arguments (guard_error otherwise); Param_Types::match interpreted on one parameter over 12 combinations of its tests accepts exactly untyped, script object of the named class, exact C++ type, convertible C++ type (marked for conversion). script classes: method and attribute wrappers call their body only for objects of their class (type-name match interpreted as a table), `def C::C` builds the constructor wrapper, which creates the object, passes it first followed by the arguments in order and returns it. The copy registered for a built-in container of values must clone element by element (a Boxed_Value copy shares the object): fails for Vector, Map, Map_Pair and Pair on the current tree - four listed known findings with a replay (`var b = a; b[0] = 9` changes a). No optimizer pass removes the evaluation of an operand the evaluator would evaluate (C02 R2.8/R2.9 re-decided as R3.12). Vector/map literals and declarations store clones (C08 R8.3 re-decided as R3.13). Not decided: agreement with a reference interpreter on generated programs; values."),
         technique="table extraction (operator groups, precedence order, node kind per level, recursion level per operand) and shape rules over eval_internal bodies (conditional evaluation, handler placement, scope guards, evaluation order)",
         ref="DESIGN.md section 4 C03"),
     "C11": dict(
@@ -322,7 +322,7 @@ CLAIMED = {
               "(:=, &) is assigned, stepped, mutated through a member or handed to back_inserter/bind(push_back) outside the "
               "six functions whose contract is to mutate; no numeric parameter is compared with an unsigned size() (a negative "
               "count would wrap); on the C++ side Bidir_Range::pop_front/pop_back move only the "
-              "view's iterators. Callback argument roles: every application of a callback parameter, direct or through another prelude function it is handed to, passes (element of input k / accumulator / result of another callback) in the same positions, compared with a reference table (foldl f(elem, acc); reduce f(acc, elem); zip_with f(x_i, y_i)). No function returns one of its parameters, `this`, or an alias of one (min/max select an argument by contract). What is handed to a by-reference store (insert_ref_at, push_back_ref) is clone(x), or x after x.reset_var_return_value() (R17.10). Not decided: results (counts, order of combination), behaviour of the C++ functions called."),
+              "view's iterators. Callback argument roles: every application of a callback parameter, direct or through another prelude function it is handed to, passes (element of input k / accumulator / result of another callback) in the same positions, compared with a reference table (foldl f(elem, acc); reduce f(acc, elem); zip_with f(x_i, y_i)). No function returns one of its parameters, `this`, or an alias of one (min/max select an argument by contract). What is handed to a by-reference store (insert_ref_at, push_back_ref) is clone(x), or x after x.reset_var_return_value() (R17.10). The copying declarations the prelude relies on really copy (C08 R8.3 re-decided as R17.11). Not decided: results (counts, order of combination), behaviour of the C++ functions called."),
         technique="script-level lint: independent subset parser + abstract interpretation (element lower bounds, per-iteration counters) + alias-aware who-may-mutate rule; one supporting rule over the C++ view class",
         ref="DESIGN.md section 4 C17 and 8.5"),
 }
